@@ -825,7 +825,7 @@ func runC06(r *Report, tier string) {
 		if mc.enc {
 			continue
 		}
-		checkModeOptions(r, "R06.2", mc, nil, []string{"MaxNestedLevels"})
+		checkModeLimit(r, "R06.2", mc, "MaxNestedLevels", func(v, def int64) bool { return v <= def }, "is not above the library default")
 	}
 }
 
